@@ -96,8 +96,23 @@ def is_parser_function(repo, q, fn):
     return q in ("parser::parse_insn_operand",)
 
 
+# The table is matched by (function, exception class); the guard text is documentation only, so that rewording an
+# existing assert does not raise an alarm. A function may hold as many such sites as it has entries; one more is new.
+TABLE_BY_SITE = {}
+for (_q, _e, _g), _v in TABLE.items():
+    TABLE_BY_SITE.setdefault((_q, _e), []).append(_v)
+
+
+# functions holding several sites of one tabled kind (confirmed by reading: five type guards, the maybe/result asserts,
+# the two conversions to UnrecoverableError)
+SITE_COUNTS = {("deferred::LinearPolynomial.__init__", "TypeError"): 5, ("parser::Parser.__call__", "AssertionError"): 3,
+               ("reports::handle_reports.__exit__", "UnrecoverableError"): 2}
+
+
 def rule_G2(ck):
     repo = ck.repo
+    budget = {k: len(v) for k, v in TABLE_BY_SITE.items()}
+    budget.update(SITE_COUNTS)
     reach = callgraph.reachable(repo)
     sites = raise_sites(repo)
     used = set()
@@ -120,9 +135,10 @@ def rule_G2(ck):
                     continue
         elif exc == "UnrecoverableError":
             verdict = ("ok", "the reported-failure exception")
-        elif key in TABLE:
-            verdict = TABLE[key]
-            used.add(key)
+        elif (q, exc) in TABLE_BY_SITE and budget.get((q, exc), 0) > 0:
+            budget[(q, exc)] -= 1
+            verdict = TABLE_BY_SITE[(q, exc)][0]
+            used.add((q, exc))
         ck.instance(("raise", q, exc, guard), {"site": q, "raises": exc, "guard": guard[:60], "discharge": verdict[0] if verdict else None}, fn=q)
         if verdict is None:
             what = f"assert {guard}" if exc == "AssertionError" else f"raise {exc}"
